@@ -36,7 +36,9 @@ CLAIMS = {
             "path-sensitive effect-order analysis (write-then-raise) by abstract interpretation"),
     "C07": ("Frozen classes: no in-place route writes receiver-reachable state on any path (guard-first), copy-on-write routes write only a "
             "distinct fresh copy with the in-repo __deepcopy__ interpreted, the initialising flag / force are produced only by the "
-            "constructor and bracket its writes; FrozenInstanceError raised by copy-on-write helpers on their own copy is reported.",
+            "constructor and bracket its writes; FrozenInstanceError raised by copy-on-write helpers on their own copy is reported; "
+            "FrozenInstanceError is not an instance of any exception the library swallows around guarded operations; frozen is "
+            "inherited (MISSING-guarded options default to MISSING); results of opaque callbacks may alias their arguments.",
             "flag-sensitive provenance analysis under the frozen assumption environment + who-may-produce AST rules"),
     "C08": ("Default lookups return fresh copies / factory results / MISSING on every path and always walk the instance's MRO; the "
             "constructor copies caller-supplied values in both roles (own class, parent) unless do_not_copy; __delattr__ re-installs the "
@@ -65,12 +67,14 @@ CLAIMS = {
             "guards of every attribute write in the local loop (init-enabled, owned here, not the overflow attribute); parent constructors "
             "over the whole MRO with forwarded keywords popped; defaults looked up relative to the instance's class and tested by identity, "
             "never truthiness; exhaustive truth table of the overflow filter (comprehension or loop form); builder chain of the generated "
-            "signature; __post_init__ hook and nearest-ancestor default resolution.",
+            "signature; __post_init__ hook and nearest-ancestor default resolution; parent constructors only for classes defining their own "
+            "__init__; preparers looked up with inheritance.",
             "event-order and guard analysis by abstract interpretation + finite truth tables over condition ASTs"),
     "C10": ("Structural clauses only (reflexivity/symmetry/transitivity over values and repr text are not claimed): forall-loop polarity "
             "of __eq__ (only `return False` inside the loop, every True path carries an equality verdict for each visited compare-enabled "
             "attribute), class-compatibility test returns False, three-argument getattr with MISSING in __eq__ and repr, cycle test first "
-            "in object_repr, attribute list from attrs.items() filtered by Attr.repr, __deepcopy__ drops no __dict__ entry.",
+            "in object_repr, attribute list from attrs.items() filtered by Attr.repr, __deepcopy__ drops no __dict__ entry and registers the "
+            "copy in the memo before copying attributes; KeyedList/KeyedSet equality decided from the list / the key->item dict only.",
             "loop-polarity rule + per-path verdict analysis by abstract interpretation"),
     "C12": ("The descriptor protocol is a finite state machine over boolean options and slot presence: each of "
             "spec_property.__get__/__set__/__delete__ and classproperty.__get__/__set__/__delete__ is interpreted once per feasible truth "
